@@ -128,6 +128,58 @@ def sum_minus_addend(b, ops):
     return False
 
 
+def _listed_keys(rep):
+    """keys of the listed findings / reviewed sites of this property (exact keys)"""
+    import json, os
+    from lib.report import VERIF
+    out = set(rep._reviewed())
+    p = os.path.join(VERIF, "known_findings.json")
+    if os.path.exists(p):
+        for e in json.load(open(p))["findings"]:
+            if e["property"] == rep.prop:
+                out.add(e["key"])
+    return out
+
+
+def reattribute_moved_sites(rep, cg, bodies, per_fn):
+    """A site key names the function the site is in.  When a block that contains a LISTED undischarged site is extracted into a private
+    helper with a single call site, the same site would appear under the helper's name.  An undischarged group whose key is not listed
+    is therefore tried under the name of the helper's only caller (up to two levels), its lines added to the caller's own undischarged
+    group of the same kind: if THAT key is listed, the group is reported there.  Nothing is hidden by this: an additional site changes
+    the count in the key, and a key that is not listed either way is reported under the helper's own name as before."""
+    listed = _listed_keys(rep)
+    if not listed:
+        return per_fn
+    callers = defaultdict(set)
+    sites = defaultdict(int)
+    for b in bodies:
+        for _, t in b.calls():
+            c = t.get("f") or t["tf"]
+            if c in cg.bodies and c != b.fn:
+                callers[c].add(b.fn)
+                sites[c] += 1
+
+    def key_of(fn, kind, what, n):
+        return "%s|%s:%s:%s:x%d" % ("C07-R4" if kind == "alloc" else "C07-R3", fn, kind, what, n)
+    out = dict(per_fn)
+    for (fn, kind, what, ok), lines in sorted(per_fn.items()):
+        if ok or key_of(fn, kind, what, len(lines)) in listed:
+            continue
+        g = fn
+        for _ in range(2):
+            b = cg.bodies.get(g)
+            if b is None or b.pub or len(callers.get(g, ())) != 1 or sites.get(g) != 1:
+                break
+            g = next(iter(callers[g]))
+            own = out.get((g, kind, what, False), []) if (g, kind, what, False) in per_fn or (g, kind, what, False) in out else []
+            if key_of(g, kind, what, len(own) + len(lines)) in listed:
+                out[(g, kind, what, False)] = sorted(own + lines)
+                del out[(fn, kind, what, ok)]
+                rep.note("site-moved-into-helper", {"site": "%s %s" % (kind, what), "helper": fn, "reported_under": g})
+                break
+    return out
+
+
 def run(F, rep, tier):
     crate = "mech_core.lib"
     cg = CallGraph(F, [crate])
@@ -138,6 +190,7 @@ def run(F, rep, tier):
     rep.rule("C07-R4", "file-derived value used as an allocation size without a dominating comparison against a length derived from the input (unbounded allocation)")
 
     consts = G.Consts(F, crate)
+    sums = G.Summaries(cg, consts)
     # ---- roles
     parsers = [b for b in bodies if any(s["adt"].endswith("::ParsedProgram") for _, s in b.aggs()) and calls_matching(b, r"Read::read_exact$|ReadBytesExt::read_u")]
     verifiers = [b for b in bodies if calls_matching(b, r"^crc32fast::") and calls_matching(b, r"ReadBytesExt::read_u32$|Read::read_exact$")
@@ -172,29 +225,23 @@ def run(F, rep, tier):
                 if not (r1 & r2):
                     why = "the verifier and the parser do not read the same reader"
                     continue
-                # Err propagated: result -> Try::branch, and the parser call is dominated by the Continue edge
-                d = vt["d"][0]
-                br = [(i, t) for i, t in b.calls() if (t.get("f") or t["tf"]).endswith("Try>::branch") and any(isinstance(a, list) and a[0] == d for a in t["args"])]
-                if not br:
+                # Err propagated: the parser call is dominated by the success edge of the verifier's result (`?` Continue edge, the Ok arm
+                # of a match / if-let on it, or the fall-through of unwrap) and is unreachable from the failure side
+                edges = sums.success_edges(b, vi, vt, "result")
+                if not edges:
                     why = "the verifier's result is not propagated with `?` (its Err is dropped)"
                     continue
-                bi, bt = br[0]
-                # the switch after branch: Break target must reach an err exit and not the parser call
-                nb = bt.get("t")
-                sw = b.blocks[nb]["t"] if nb is not None else None
-                if not sw or sw["k"] != "switch":
-                    why = "cannot find the `?` branch"
-                    continue
-                cont = [tg for v, tg in sw["targets"] if v == 0]
-                brk = [tg for v, tg in sw["targets"] if v == 1] or [sw["else"]]
-                if not cont:
-                    cont = [sw["else"]]
-                if not edge_dominates(b, nb, cont[0], pi):
-                    why = "the parser call is reachable without passing the verifier's Ok edge"
-                    continue
-                reach_brk = b.reachable_from([brk[0]], avoid={cont[0]})
-                if pi in reach_brk:
-                    why = "the parser is still called when verification fails"
+                passed = False
+                for sw, okt in edges:
+                    if not edge_dominates(b, sw, okt, pi):
+                        why = "the parser call is reachable without passing the verifier's Ok edge"
+                        continue
+                    others = [x for x in b.succ(sw) if x != okt]
+                    if pi in b.reachable_from(others, avoid={okt}):
+                        why = "the parser is still called when verification fails"
+                        continue
+                    passed = True
+                if not passed:
                     continue
                 good = True
                 break
@@ -214,7 +261,7 @@ def run(F, rep, tier):
                     roots = set()
                     for o in s["src"]:
                         roots |= {r[1] for r in sl.roots(o) if r[0] == "call"}
-                    if any(r.startswith("crc32fast") for r in roots) and any(r.endswith("read_u32") for r in roots):
+                    if any(r.startswith("crc32fast") for r in roots) and any(re.search(r"read_u32$|u32>?::from_[lb]e_bytes$", r) for r in roots):
                         t = blk["t"]
                         if t["k"] == "switch":
                             false_t = [tgt for val, tgt in t.get("targets", []) if val == 0]
@@ -245,7 +292,6 @@ def run(F, rep, tier):
     seen_fn = set()
     n_sites = 0
     per_fn = defaultdict(list)
-    sums = G.Summaries(cg, consts)
     # a bound check extracted into a private helper (`check(off, len, total)?`) takes the file-derived values as arguments: the taint
     # follows them into the parameters of such guard helpers (and only of those), so the arithmetic of the extracted check stays a site
     seeds = defaultdict(set)
@@ -325,6 +371,7 @@ def run(F, rep, tier):
                     ok = discharged(i, locs) or (t["msg"] == "Overflow(Sub)" and sum_minus_addend(b, t["ops"]))
                     per_fn[(b.fn, "assert", t["msg"], ok)].append(t["l"])
     rep.floor("C07-R3", "file-derived allocation/index/arithmetic sites found under the loader", n_sites, 20)
+    per_fn = reattribute_moved_sites(rep, cg, bodies, per_fn)
     for (fn, kind, what, ok), lines in sorted(per_fn.items()):
         rule = "C07-R4" if kind == "alloc" else "C07-R3"
         b = cg.bodies[fn]
@@ -664,7 +711,8 @@ def run_r5(F, rep, crate, cg, consts=None):
                         l2 = loop_around(c["body"], x)
                         if l2 is not None:
                             caller = (c, l2, x)
-        if not rep.check(caller is not None, "C07-R5", "anchor:loop", "decode loop not found"):
+        if caller is None:
+            rep.bad("C07-R5", "anchor:loop", "decode loop not found")
             return
         pre_fn, pre_item = caller[0]["body"], caller[0]
         readers |= {render(a) for a in (caller[2][2] if caller[2][0] == "call" else caller[2][4]) if is_node(a)}
